@@ -259,3 +259,74 @@ func (r *Report) LoopAlwaysCalls(key, fnKey, callee string, unless Cond) {
 	}
 	r.OK(k, d, w.FnPos(fn), fmt.Sprintf("loop of %d blocks; only the reviewed skip avoids the call", len(loop)))
 }
+
+// IteratorLoopCensus: every loop that walks a KV-store iterator (`for ; it.Valid(); it.Next()`) in the given packages
+// runs until the iterator is exhausted: its only ways out are the `Valid()` test of the header, a panic, or the return of
+// an error - unless the function is in the reviewed table (loops that stop early on purpose). Seed C18-7 added
+// `&& len(members) < MaxGroupSize` to the loop that lists a group's members.
+func (r *Report) IteratorLoopCensus(key string, prefixes []string, allowed map[string]string, min int) {
+	w := r.W
+	d := "store-iterator loops run to exhaustion (or are reviewed early stops)"
+	n := 0
+	seenAllowed := map[string]bool{}
+	for _, fk := range sortedKeys(w.Funcs) {
+		ok := false
+		for _, p := range prefixes {
+			if strings.HasPrefix(fk, p) {
+				ok = true
+			}
+		}
+		fn := w.Funcs[fk]
+		if !ok || len(fn.Blocks) == 0 || !inRepoScope(fn) {
+			continue
+		}
+		for h, loop := range naturalLoops(fn) {
+			ifi := ifOf(h)
+			if ifi == nil {
+				continue
+			}
+			ct := Render(ifi.Cond)
+			isIter := false
+			for a := range ct.Atoms() {
+				if strings.HasPrefix(a, "call:github.com/cosmos/cosmos-db.") && strings.HasSuffix(a, ".Valid") {
+					isIter = true
+				}
+			}
+			if !isIter {
+				continue
+			}
+			n++
+			w.SitesExamined++
+			var early []string
+			for b := range loop {
+				for _, s := range b.Succs {
+					if loop[s] || b == h || blockPanics(s) || returnsNonNilError(s) {
+						continue
+					}
+					early = append(early, fmt.Sprintf("block %d -> %d", b.Index, s.Index))
+				}
+			}
+			// a header that is itself the second half of `a && b` shows up as an exit from a non-header block, caught above;
+			// a header whose condition is not the bare Valid() call is an extra stop condition
+			bare := ct.Op == "call" && strings.HasSuffix(ct.Name, ".Valid")
+			k := fmt.Sprintf("%s|%s|loop@b%d", key, fk, h.Index)
+			switch {
+			case len(early) == 0 && bare:
+				r.OK(k, d, w.posOr(ifi.Cond.Pos(), fn), "runs to exhaustion")
+			case allowed[fk] != "":
+				seenAllowed[fk] = true
+				r.OK(k, d, w.posOr(ifi.Cond.Pos(), fn), "reviewed early stop: "+allowed[fk])
+			default:
+				r.Bad(k, d, w.posOr(ifi.Cond.Pos(), fn), fmt.Sprintf("the iterator loop of %s can stop before the iterator is exhausted (%v; bare Valid() header: %v): entries behind the stop are never seen", fk, early, bare))
+			}
+		}
+	}
+	if n < min {
+		r.Unres(key+"|count", d, fmt.Sprintf("%d iterator loops found, expected >= %d", n, min))
+	}
+	for f := range allowed {
+		if !seenAllowed[f] {
+			r.Unres(key+"|"+f+"#stale", d, "reviewed early stop no longer exists (stale table)")
+		}
+	}
+}
